@@ -574,8 +574,75 @@ def shared_files_case(args):
     return ("shared-files", gz), errs
 
 
+def borrowed_db_history_case(args):
+    """a history of four runs under one HOME (real file system): C converts annotation X into its folder; A (other folder, same X) borrows
+       that conversion through the per-user cache and is killed; the owner of C's folder runs there again with ANOTHER annotation of the
+       same file name (or removes the folder); A is resumed.  The resumed run must give what a run on X gives alone"""
+    kill_at, owner, scratch = args
+    import shutil
+    from vlib import syn, run
+    from vlib import worlds as W
+    from props import c12
+    d = os.path.join(scratch, "c20_hist_%s_%s" % (kill_at, owner))
+    shutil.rmtree(d, ignore_errors=True)
+    w = W.mixed_world(1, groups=False, multimappers=False)
+    paths = syn.materialise(w, os.path.join(d, "projX"))
+    w2 = W.mixed_world(1, groups=False, multimappers=False)
+    w2["genes"] = [g for g in w2["genes"] if g["id"] != "GA0"]
+    os.makedirs(os.path.join(d, "projY"))
+    other = syn.write_gtf(w2, os.path.join(d, "projY", "annot.gtf"))
+    home, home0 = os.path.join(d, "home"), os.path.join(d, "home0")
+    os.makedirs(home)
+    os.makedirs(home0)
+    errs = []
+    outA, outC, outS = os.path.join(d, "outA"), os.path.join(d, "outC"), os.path.join(d, "solo")
+    rcs = run.run_isoquant(run.base_argv(paths, outS), home0, os.path.join(d, "solo.txt"))
+    rcc = run.run_isoquant(run.base_argv(paths, outC), home, os.path.join(d, "c.txt"))
+
+    def kill_hook():
+        import src.dataset_processor as DP
+        if kill_at == "after-conversion":
+            def die(self, *a, **k):
+                os._exit(9)
+            DP.DatasetProcessor.process_all_samples = die
+        else:
+            orig = DP.DatasetProcessor.collect_reads
+
+            def die2(self, *a, **k):
+                orig(self, *a, **k)
+                os._exit(9)
+            DP.DatasetProcessor.collect_reads = die2
+    rca = run.run_isoquant(run.base_argv(paths, outA), home, os.path.join(d, "a.txt"), pre_hook=kill_hook)
+    borrowed = "Gene annotation file found" in open(os.path.join(d, "a.txt")).read()
+    if rcs or rcc or rca != 9 or not borrowed:
+        shutil.rmtree(d, ignore_errors=True)
+        raise core.HarnessError("history set-up failed: solo %d, C %d, A %d (9 expected), borrowed=%s" % (rcs, rcc, rca, borrowed))
+    if owner == "other-annotation":
+        av = run.base_argv(paths, outC) + ["--force"]
+        av[av.index("--genedb") + 1] = other
+        rc = run.run_isoquant(av, home, os.path.join(d, "c2.txt"))
+        if rc:
+            errs.append(("history:owner-run-failed", "the second run in C's folder exit %d" % rc))
+    else:
+        shutil.rmtree(outC)
+    rc = run.run_isoquant(["--resume", "--output", outA], home, os.path.join(d, "a2.txt"))
+    if rc != 0:
+        errs.append(("history:resume-failed", "resumed run exit %d: %s" % (rc, open(os.path.join(d, "a2.txt")).read()[-300:])))
+    else:
+        t0, t1 = run.read_tree(os.path.join(outS, "OUT")), run.read_tree(os.path.join(outA, "OUT"))
+        for k, what in c12.tree_diff(t0, t1):
+            errs.append(("history:resumed-differs:%s" % k.split("OUT.")[-1], "%s of the resumed run differs from the run alone: %s" % (k, what)))
+    shutil.rmtree(d, ignore_errors=True)
+    return ("history", kill_at, owner), errs
+
+
 def run(ctx):
     quick = ctx.tier == "quick"
+    hj = [(k_, o_, ctx.scratch) for k_ in ("after-conversion", "after-collection") for o_ in ("other-annotation", "folder-removed")]
+    for key, errs in core.pmap(borrowed_db_history_case, hj):
+        for k, msg in errs:
+            ctx.violation(k, "run A borrows C's conversion, is killed %s, C's owner: %s, A is resumed: %s" % (key[1], key[2], msg), {"history": list(key[1:])})
+    ctx.note("borrowed-conversion histories (4 real runs + resume each): %d" % len(hj))
     for key, errs in core.pmap(shared_files_case, [(0, ctx.scratch), (1, ctx.scratch)]):
         for k, msg in errs:
             ctx.violation(k, "two runs in a row (%s reference): %s" % ("gzipped" if key[1] else "plain", msg), {"shared_files": key[1]})
@@ -643,6 +710,12 @@ def run(ctx):
 
 
 def replay(ctx, case):
+    if "history" in case:
+        key, errs = borrowed_db_history_case(tuple(case["history"]) + (ctx.scratch,))
+        return errs[0][1] if errs else None
+    if "shared_files" in case:
+        key, errs = shared_files_case((case["shared_files"], ctx.scratch))
+        return errs[0][1] if errs else None
     import gffutils
     gffutils.create_db = fake_create_db
     gffutils.FeatureDB = FakeFeatureDB
